@@ -114,6 +114,7 @@ type cpyNode struct {
 	ov         cpyOverride
 	ovObj      pdf.Native
 	ovEdit     map[pdf.Name]pdf.Object
+	cryptCF    map[pdf.Name]pdf.Object // /Filter and /DecodeParms naming a non-Identity crypt filter (presented by the wrapper)
 	virtStm    bool // override object which behaves like a member of an object stream
 	aesLen     int  // >0: stored length+1 of an AES stream cut down in the file (1: empty, 2..32: 1..31 bytes)
 	selfFilter int  // 1: /Filter refers to the stream itself, 2: to another stream (3, 4: the same for /DecodeParms)
@@ -305,6 +306,9 @@ func cpyNullify(r *Rand, o pdf.Object) pdf.Object {
 		}
 		return a
 	case pdf.Dict:
+		if r.P(1, 12) {
+			return pdf.Dict(nil) // like the nil Array: written as null (D99)
+		}
 		d := pdf.Dict{}
 		for _, p := range sortedDict(x) {
 			d[p.k] = cpyNullify(r, p.v)
@@ -567,15 +571,16 @@ func genCpyCase(seed uint64, thorough bool) *cpyCase {
 				nd.filters = append([]pdf.Filter{pdf.FilterCryptIdentity{}}, nd.filters...)
 				cs.features["crypt-identity"] = true
 			} else if cs.srcVer >= pdf.V1_5 && r.P(1, 25) {
-				// a crypt filter the library cannot decode: Copy has to refuse it
+				// a crypt filter the library cannot decode: Copy has to refuse it where the source
+				// is encrypted, Writer.Put refuses it otherwise.  The Writer does not write such a
+				// stream either: the wrapping Getter presents the entries (buildSource).
 				nd.filters = nil
 				cf := pdf.Name(Pick(r, []string{"StdCF", "MyCF"}))
 				if r.Bool() {
-					nd.dict["Filter"] = pdf.Name("Crypt")
-					nd.dict["DecodeParms"] = pdf.Dict{"Name": cf}
+					nd.cryptCF = map[pdf.Name]pdf.Object{"Filter": pdf.Name("Crypt"), "DecodeParms": pdf.Dict{"Name": cf}}
 				} else {
-					nd.dict["Filter"] = pdf.Array{pdf.Name("Crypt"), pdf.Name("ASCIIHexDecode")}
-					nd.dict["DecodeParms"] = pdf.Array{pdf.Dict{"Name": cf}, nil}
+					nd.cryptCF = map[pdf.Name]pdf.Object{"Filter": pdf.Array{pdf.Name("Crypt"), pdf.Name("ASCIIHexDecode")},
+						"DecodeParms": pdf.Array{pdf.Dict{"Name": cf}, nil}}
 				}
 				nd.noTruth = true
 				cs.features["crypt-cf"] = true
@@ -634,7 +639,7 @@ func genCpyCase(seed uint64, thorough bool) *cpyCase {
 	// producers store empty streams with /Length 0)
 	if cs.srcPw != "" && cs.srcVer >= pdf.V1_6 && !cs.srcWriter && r.P(1, 6) {
 		for _, nd := range cs.nodes {
-			if nd.kind == nkStream && nd.ov == ovNone && len(nd.filters) == 0 && nd.dict["Filter"] == nil {
+			if nd.kind == nkStream && nd.ov == ovNone && len(nd.filters) == 0 && nd.dict["Filter"] == nil && nd.cryptCF == nil {
 				nd.data = nil
 				nd.aesLen = 1 + Pick(r, []int{0, 0, 0, 16, 1, 5, 15, 17, 20, 31})
 				cs.features["aes-short-stream"] = true
@@ -1016,6 +1021,21 @@ func buildSource(cs *cpyCase) (*cpyBuilt, error) {
 		}
 		if len(st.Dict) == 0 && len(nd.ovEdit) == 0 {
 			nd.ov = ovNone
+		}
+	}
+	for _, nd := range cs.nodes {
+		if nd.kind != nkStream || nd.cryptCF == nil || (cs.srcWriter && cs.srcNoReaderAt) {
+			continue
+		}
+		if nd.ov != ovNone && nd.ov != ovStream {
+			continue
+		}
+		nd.ov = ovStream
+		if nd.ovEdit == nil {
+			nd.ovEdit = map[pdf.Name]pdf.Object{}
+		}
+		for k, v := range nd.cryptCF {
+			nd.ovEdit[k] = v
 		}
 	}
 	return b, nil
